@@ -112,6 +112,42 @@ func gen(tier string) []proto.RTItem {
 			items = append(items, proto.RTItem{Scn: r, Class: fmt.Sprintf("http/%s-%s/port=%d", k.proto, k.method, p)})
 		}
 	}
+	// (F) the command-line front end (first TTL fixed at 1, send delay fixed at 50 ms), run in-process over the simulated wire
+	for _, k := range ks {
+		if tier != "thorough" && strings.Contains(k.target, ":") && k.proto == "icmp" {
+			continue
+		}
+		for _, max := range ttlVals {
+			r := req(k, 1, max, 33434, 3)
+			r.CLI, r.DelayMs = true, 50
+			items = append(items, proto.RTItem{Scn: r, Class: fmt.Sprintf("cli/%s-%s/max-ttl=%d", k.proto, k.method, max)})
+		}
+	}
+	for _, k := range ks[:4] {
+		for _, p := range portVals {
+			r := req(k, 1, 3, p, 3)
+			r.CLI, r.DelayMs = true, 50
+			if k.method == "sack" {
+				r.UseListenerPort = p == 0
+			}
+			items = append(items, proto.RTItem{Scn: r, Class: fmt.Sprintf("cli/%s-%s/port=%d", k.proto, k.method, p)})
+		}
+	}
+	for _, pr := range protoVals {
+		for _, m := range methodVals {
+			if pr == "" {
+				continue // (an empty --proto is the flag's own business)
+			}
+			tgt := "203.0.113.77"
+			if pr == "tcp" && (m == "sack" || m == "prefer_sack") {
+				tgt = "198.18.0.9"
+			}
+			r := req(kind{pr, m, tgt}, 1, 3, 33434, 3)
+			r.UseListenerPort = tgt == "198.18.0.9"
+			r.CLI, r.DelayMs = true, 50
+			items = append(items, proto.RTItem{Scn: r, Class: fmt.Sprintf("cli/strings/protocol=%q,method=%q", pr, m)})
+		}
+	}
 	for _, m := range methodVals {
 		r := req(kind{"tcp", m, "203.0.113.77"}, 1, 3, 33434, 3)
 		if m == "sack" || m == "prefer_sack" {
